@@ -43,6 +43,7 @@ type checkRunner struct {
 	checkedRcpts         []string
 	checkedRcptsPerCheck map[module.CheckState]map[string]module.CheckResult
 	checkedRcptsLock     sync.Mutex
+	checkedBodyPerCheck  map[module.CheckState]module.CheckResult
 
 	resolver      dns.Resolver
 	doDMARC       bool
@@ -60,6 +61,7 @@ func newCheckRunner(msgMeta *module.MsgMetadata, log log.Logger, r dns.Resolver)
 	return &checkRunner{
 		msgMeta:              msgMeta,
 		checkedRcptsPerCheck: map[module.CheckState]map[string]module.CheckResult{},
+		checkedBodyPerCheck:  map[module.CheckState]module.CheckResult{},
 		log:                  log,
 		resolver:             r,
 		dmarcVerify:          dmarc.NewVerifier(r),
@@ -295,7 +297,26 @@ func (cr *checkRunner) checkBody(ctx context.Context, checks []module.Check, hea
 	}
 
 	return cr.runAndMergeResults(states, func(s module.CheckState) module.CheckResult {
+		// The same check can be referenced by several blocks the message
+		// goes through: it sees the body once, its decision is repeated
+		// (without header fields and authentication results, these are
+		// merged already).
+		cr.checkedRcptsLock.Lock()
+		prev, ok := cr.checkedBodyPerCheck[s]
+		cr.checkedRcptsLock.Unlock()
+		if ok {
+			return prev
+		}
+
 		res := s.CheckBody(ctx, header, body)
+
+		cr.checkedRcptsLock.Lock()
+		cr.checkedBodyPerCheck[s] = module.CheckResult{
+			Reason:     res.Reason,
+			Reject:     res.Reject,
+			Quarantine: res.Quarantine,
+		}
+		cr.checkedRcptsLock.Unlock()
 		return res
 	})
 }
